@@ -7,7 +7,8 @@ open Fabio Fabio.Model.C12 Fabio.Generated.C12
 def steps (xs : List String) : Option (List Step) := xs.mapM stepOfString
 
 /-- `HTTPProxy.ServeHTTP`: lookup, then the access check, then authentication, then the redirect answer of a
-`redirect=` route, then the first reference to anything that contacts an upstream (handler construction, dial, `h.ServeHTTP`). -/
+`redirect=` route, then the first reference to anything that contacts an upstream (a dial function, the handler's `ServeHTTP`); events are callee names in visit
+order with unexported helpers inlined. -/
 theorem http_order_pinned : steps httpOrder = some [.lookup, .access, .auth, .redirect, .upstream] := by decide
 
 /-- Both gates are top-level statements `if <check> { http.Error(…); return }` of the function body. -/
@@ -33,8 +34,7 @@ theorem http_gate_before_redirect (env : Env) (ss : List Step) (hs : steps httpO
   subst this
   exact Props.C12.gate_before_redirect env _ false (by decide) h
 
-theorem http_statuses_pinned :
-    httpDeniedStatus = "http.StatusForbidden" ∧ httpUnauthorizedStatus = "http.StatusUnauthorized" := by decide
+theorem http_statuses_pinned : httpDeniedStatus = "403" ∧ httpUnauthorizedStatus = "401" := by decide
 
 /-- The three TCP proxies: lookup, access check, then the dial; the check's body returns; the inbound
 connection is closed by the leading `defer in.Close()`. -/
@@ -64,7 +64,7 @@ theorem tcp_gate_before_upstream (env : Env) (ss : List Step)
 There is no authentication step on this path (recorded finding, class `grpc-unauthorized`). -/
 theorem grpc_order_pinned : steps grpcOrder = some [.lookup, .access, .upstream] := by decide
 
-theorem grpc_gate_returns : grpcGateReturns = true ∧ grpcDeniedCode = "codes.PermissionDenied" := by decide
+theorem grpc_gate_returns : grpcGateReturns = true ∧ grpcDeniedCode = "PermissionDenied" := by decide
 
 theorem grpc_gate_before_upstream (env : Env) (ss : List Step) (hs : steps grpcOrder = some ss)
     (h : (runGate env ss false).2 = true) : env.found = true ∧ env.denied = false := by
@@ -75,26 +75,28 @@ theorem grpc_gate_before_upstream (env : Env) (ss : List Step) (hs : steps grpcO
 
 /-- `AccessDeniedTCP` decides by calling `AccessDeniedAddr`, the function the gRPC interceptor uses: one
 decision (the model's `accessDeniedTCP`) for TCP connections and gRPC peers. -/
-theorem tcp_and_grpc_share_decision : tcpDelegatesToAddr = 1 := by decide
+theorem tcp_and_grpc_share_decision : tcpDelegatesToAddr = true := by decide
 
-/-- The basic scheme is the realm and the htpasswd file handle, nothing else (no cache, no counters), and
-`basic.Authorized` only reads the request's credentials, sets the challenge header and asks the file: the
-decision is a function of the attempt and the file (`auth_decision_depends_only_on_attempt`). -/
-theorem basic_scheme_is_stateless :
-    basicFields = ["realm string", "secrets *htpasswd.File"] ∧
-    basicAuthorizedCalls = ["request.BasicAuth", "response.Header().Set", "response.Header", "b.secrets.Match"] ∧
-    basicAuthorizedWrites = 0 := by decide
+/-- Every auth scheme (a type of package `auth` with an `Authorized` method) is a struct of a string (realm) and
+the htpasswd file handle, nothing else (no cache, no counters, no lock), and `Authorized` — helpers inlined —
+only reads the request's credentials (`BasicAuth`), sets the challenge header (`Header`, `Set`) and asks the
+file (`Match`), storing into nothing but local variables: the decision is a function of the attempt and the
+file (`auth_decision_depends_only_on_attempt`). Field, parameter and type names are not pinned. -/
+theorem auth_schemes_are_stateless :
+    authSchemeTypes = 1 ∧ authSchemeFieldTypes = ["*htpasswd.File", "string"] ∧
+    authorizedCallees = ["BasicAuth", "Header", "Match", "Set"] ∧ authorizedWrites = 0 := by decide
 
 /-- The keys of the rule map the model calls `allow` and `deny`. -/
 theorem tags_pinned : ipAllowTag = "allow:ip" ∧ ipDenyTag = "deny:ip" := by decide
 
 /-- `Route.addTarget` processes the access options of every target it adds. -/
-theorem add_target_processes_rules : addTargetProcessCalls = 1 := by decide
+theorem add_target_processes_rules : addTargetProcessesRules = true := by decide
 
-/-- Every error return of `ProcessAccessRules` is directly preceded by `t.denyAll()` (the model's
-`Rules.denyAll`; repair of D16), and `denyAll` installs an allow list without blocks. -/
+/-- Every error return of `ProcessAccessRules` is directly preceded by the installation of an allow list without
+blocks (`<recv>.accessRules = map…{"allow:ip": {}}`, written inline or as a call of a helper whose body is
+exactly that assignment, whatever its name) — the model's `Rules.denyAll`; repair of D16. -/
 theorem process_fails_closed :
     processErrorReturns = processErrorReturnsFailClosed ∧ 0 < processErrorReturns ∧
-    denyAllBody = "{ t.accessRules = map[string][]interface{}{ipAllowTag: {}} }" := by decide
+    denyAllInstallsEmptyAllowList = true := by decide
 
 end Fabio.Props.C12Facts
